@@ -346,8 +346,7 @@ fn main() {
                     o.bad("exp sign", x.show(), "positive".into(), r.show());
                 }
                 // value within one unit of the p-th digit
-                // (exp hard-codes 117 working digits, so accuracy is only claimed up to the default precision)
-                if p <= 100 {
+                {
                     let enc = spec::exp::exp_bounds(&x.n, x.s, p.max(20));
                     let lo = Dec { n: enc.lo.clone(), s: enc.f as i128 };
                     let hi = Dec { n: enc.hi.clone(), s: enc.f as i128 };
